@@ -112,6 +112,14 @@ def parseIdxList (t : String) : Option (List Nat) :=
 def parseOptIdx (t : String) : Option (Option Nat) :=
   if t = "~" then some none else t.toNat?.map some
 
+/-- `~` = empty, otherwise comma-separated hex strings -/
+def parseStrList (t : String) : Option (List Str) :=
+  if t = "~" then some [] else (t.splitOn ",").mapM parseStrArg
+
+/-- `~` = empty list; items `!` = None -/
+def parseOptIdxList (t : String) : Option (List (Option Nat)) :=
+  if t = "~" then some [] else (t.splitOn ",").mapM fun x => if x = "!" then some none else x.toNat?.map some
+
 def stepLine (st : St) (toks : List String) : St :=
   let fail (m : String) : St := { st with bad := m :: st.bad }
   match toks with
@@ -160,8 +168,22 @@ def stepLine (st : St) (toks : List String) : St :=
   | "olink" :: _ => { st with linked := false }
   | "odev" :: d :: u :: info =>
       match d.toNat?, parseStrArg u, info.mapM optStr with
-      | some n, some u, some i => { st with rows := st.rows.push { depth := n, info := i, url := u, icons := [], services := [] } }
+      | some n, some u, some i =>
+          let row : DevRow FV := { depth := n, info := i, url := u, icons := [], services := [], svcKeys := [], embKeys := [],
+                                   svcByType := [], svcById := [], svcLooks := [] }
+          { st with rows := st.rows.push row }
       | _, _, _ => fail "bad odev"
+  | ["okeys", sk, ek, bt, bi] =>
+      match parseStrList sk, parseStrList ek, parseOptIdxList bt, parseOptIdxList bi with
+      | some sk, some ek, some bt, some bi =>
+          st.updLastRow fun r => { r with svcKeys := sk, embKeys := ek, svcByType := bt, svcById := bi }
+      | _, _, _, _ => fail "bad okeys"
+  | ["oskeys", vk, ak, vn, an] =>
+      match parseStrList vk, parseStrList ak, parseOptIdxList vn, parseOptIdxList an with
+      | some vk, some ak, some vn, some an =>
+          let lk : SvcLook := { varKeys := vk, actKeys := ak, varByName := vn, actByName := an }
+          st.updLastRow fun r => { r with svcLooks := r.svcLooks ++ [lk] }
+      | _, _, _, _ => fail "bad oskeys"
   | ["oicon", a, b, c, d, e] =>
       match parseStrArg a, parseIntTok b, parseIntTok c, parseIntTok d with
       | some a, some b, some c, some d =>
@@ -269,7 +291,9 @@ def diffRow (x y : DevRow FV) : String :=
   else
     match (x.services.zip y.services).find? (fun p => p.1 != p.2) with
     | some (a, b) => diffSvc a b
-    | none => "same"
+    | none =>
+      s!"lookups: impl keys={x.svcKeys.map sOf}/{x.embKeys.map sOf} service(type)={x.svcByType} service_id(id)={x.svcById} per-service={repr x.svcLooks}"
+        ++ s!" <> expected keys={y.svcKeys.map sOf}/{y.embKeys.map sOf} service(type)={y.svcByType} service_id(id)={y.svcById} per-service={repr y.svcLooks}"
 
 /-- first differing row of two dumps -/
 def firstDiff (a b : List (DevRow FV)) : String :=
